@@ -31,7 +31,9 @@ N_VALID_TIME_STRS = 6
 FOREIGN_FORMAL_RATE = 0.04      # other_attrs: a PROV formal attribute name as an ordinary attribute (C10 switches it off: finding C10-F5)
 LANGS = ["en", "fr-CA", "x-klingon", "en-gb", "EN", "zh-hant-TW", "de-CH-X-Priv"]   # case as typed must survive: not all in the spelling RFC 5646 recommends
 FOREIGN_DT = [("ex", "http://example.org/", "MyType"), ("zz", "http://zz.test/", "T"), ("xsd", "http://www.w3.org/2001/XMLSchema#", "token"),
-              ("xsd", "http://www.w3.org/2001/XMLSchema#", "QName")]
+              ("xsd", "http://www.w3.org/2001/XMLSchema#", "QName"),
+              # the datatype a language tag implies, given explicitly and without a tag
+              ("prov", "http://www.w3.org/ns/prov#", "InternationalizedString")]
 XSD = "http://www.w3.org/2001/XMLSchema#"
 PROV = "http://www.w3.org/ns/prov#"
 CLASSES = ["ProvRecord", "ProvElement", "ProvRelation", "ProvEntity", "ProvActivity", "ProvAgent", "ProvGeneration",
